@@ -75,7 +75,7 @@ def jAttr (a : Attr) : List Json := [toJson a.rel, toJson a.side]
 def dump (sch : Schema) (s : Store) : Json :=
   .arr ((List.range s.n).map fun o => Json.mkObj [
     ("ent", toJson (s.ent o)), ("alive", toJson (s.alive o)),
-    ("refs", .arr ((refsOf sch s o).map fun (a, v) => Json.arr (jAttr a ++ [match v with | none => .null | some x => toJson x]).toArray).toArray),
+    ("refs", .arr ((refsOf sch s o).map fun (a, v) => Json.arr (jAttr a ++ [match v with | none => Json.null | some x => toJson x]).toArray).toArray),
     ("colls", .arr ((collsOf sch s o).map fun (a, l) => Json.arr (jAttr a ++ [toJson l]).toArray).toArray)]).toArray
 
 def handle (j : Json) : Except String Json := do
@@ -86,7 +86,7 @@ def handle (j : Json) : Except String Json := do
       let ops ← (← argArr j "ops").mapM opOfJson
       let (_, outs) := ops.foldl (fun (acc : Store × List Json) op =>
         let o := stepO sch acc.1 op
-        (o.store, Json.mkObj [("err", match o.err with | none => .null | some e => .str (errName e)),
+        (o.store, Json.mkObj [("err", match o.err with | none => Json.null | some e => Json.str (errName e)),
                                ("dirty", toJson o.dirty), ("inv", toJson (checkInv sch o.store)),
                                ("objs", dump sch o.store)] :: acc.2)) (Store.empty, [])
       pure (Json.mkObj [("steps", .arr outs.reverse.toArray)])
